@@ -367,8 +367,11 @@ fn reduce_chain_links(
     link_files.iter().try_for_each(|(k, v)| -> Result<()> {
         res.insert(
             k.clone(),
-            v.values()
-                .last()
+            // pick the representative deterministically (smallest key id):
+            // the iteration order of the map is arbitrary
+            v.iter()
+                .min_by_key(|(key_id, _)| *key_id)
+                .map(|(_, link)| link)
                 .ok_or_else(|| {
                     Error::VerificationFailure(format!(
                         "step {} does not have enough LinkMetadata.",
